@@ -8,10 +8,10 @@ import (
 )
 
 // eventStream.HandleEvent / Stop (C25): how the two methods are serialised.
-// Both must hold es.stopLock (Lock as a top-level statement followed by a deferred
-// Unlock); HandleEvent must test es.stopped (and return) after taking the lock and
-// before any send on es.eventCh; Stop must test es.stopped (and return), then set it,
-// then close es.eventCh.
+// Both must hold <recv>.stopLock from a top-level Lock to every exit (deferred Unlock, or an
+// explicit Unlock before every return and at the end — see stmtsLockShape); every send on
+// eventCh in HandleEvent and the close in Stop must run only when <recv>.stopped is false (after
+// `if stopped { return }` or inside `if !stopped { … }`); Stop must set the flag before the close.
 
 func isRecvSel(e ast.Expr, recv, field string) bool {
 	s, ok := e.(*ast.SelectorExpr)
@@ -39,34 +39,79 @@ func flat(body *ast.BlockStmt) []ast.Stmt {
 }
 
 type stopFacts struct {
-	lockPos, testPos, setPos token.Pos
-	lock, test               bool
+	lock    bool      // the method holds recv.stopLock from lockPos to every exit (deferred or explicit unlocks)
+	lockPos token.Pos
+	// guards: a position p is guarded when the code at p runs only if recv.stopped is false:
+	// after a top-level `if recv.stopped { [unlock;] return }`, or inside a top-level `if !recv.stopped { … }`
+	earlyReturnPos token.Pos
+	guardedFrom    []token.Pos
+	guardedTo      []token.Pos
+	setPos         token.Pos
+}
+
+func (f stopFacts) guarded(p token.Pos) bool {
+	if !f.lock || p <= f.lockPos {
+		return false
+	}
+	if f.earlyReturnPos != token.NoPos && p > f.earlyReturnPos {
+		return true
+	}
+	for i := range f.guardedFrom {
+		if p > f.guardedFrom[i] && p < f.guardedTo[i] {
+			return true
+		}
+	}
+	return false
 }
 
 func analyseStopMethod(fd *ast.FuncDecl, recv string) stopFacts {
 	var f stopFacts
 	st := flat(fd.Body)
+	mu := recv + ".stopLock"
 	for i, s := range st {
 		if es, ok := s.(*ast.ExprStmt); ok && !f.lock {
-			if x, m, ok := callOn(es.X); ok && x == recv+".stopLock" && m == "Lock" && i+1 < len(st) {
-				if d, ok := st[i+1].(*ast.DeferStmt); ok {
-					if x2, m2, ok := callOn(d.Call); ok && x2 == recv+".stopLock" && m2 == "Unlock" {
-						f.lock, f.lockPos = true, s.Pos()
-					}
+			if x, m, ok := callOn(es.X); ok && x == mu && m == "Lock" {
+				// the lock section is the rest of the method from here on
+				sh := stmtsLockShape(st[i:])
+				if sh.lockCall == "Lock" && sh.deferred && !sh.earlyUnlock {
+					f.lock, f.lockPos = true, s.Pos()
+				}
+			}
+			continue
+		}
+		if !f.lock {
+			continue
+		}
+		is, ok := s.(*ast.IfStmt)
+		if !ok || is.Init != nil {
+			continue
+		}
+		// `if recv.stopped { [recv.stopLock.Unlock();] return }`
+		if is.Else == nil && isRecvSel(is.Cond, recv, "stopped") && f.earlyReturnPos == token.NoPos {
+			body := is.Body.List
+			if len(body) == 2 && isUnlockOf(body[0], mu) {
+				body = body[1:]
+			}
+			if len(body) == 1 {
+				if r, ok := body[0].(*ast.ReturnStmt); ok && len(r.Results) == 0 {
+					f.earlyReturnPos = s.End()
 				}
 			}
 		}
-		if is, ok := s.(*ast.IfStmt); ok && !f.test && is.Init == nil && is.Else == nil && isRecvSel(is.Cond, recv, "stopped") && len(is.Body.List) == 1 {
-			if r, ok := is.Body.List[0].(*ast.ReturnStmt); ok && len(r.Results) == 0 {
-				f.test, f.testPos = true, s.Pos()
-			}
-		}
-		if as, ok := s.(*ast.AssignStmt); ok && as.Tok == token.ASSIGN && len(as.Lhs) == 1 && len(as.Rhs) == 1 && isRecvSel(as.Lhs[0], recv, "stopped") {
-			if id, ok := as.Rhs[0].(*ast.Ident); ok && id.Name == "true" && f.setPos == token.NoPos {
-				f.setPos = s.Pos()
-			}
+		// `if !recv.stopped { … }` (the early return written as a guard)
+		if ue, ok := is.Cond.(*ast.UnaryExpr); ok && is.Else == nil && ue.Op == token.NOT && isRecvSel(ue.X, recv, "stopped") {
+			f.guardedFrom = append(f.guardedFrom, is.Body.Lbrace)
+			f.guardedTo = append(f.guardedTo, is.Body.Rbrace)
 		}
 	}
+	ast.Inspect(fd.Body, func(n ast.Node) bool {
+		if as, ok := n.(*ast.AssignStmt); ok && as.Tok == token.ASSIGN && len(as.Lhs) == 1 && len(as.Rhs) == 1 && isRecvSel(as.Lhs[0], recv, "stopped") {
+			if id, ok := as.Rhs[0].(*ast.Ident); ok && id.Name == "true" && f.setPos == token.NoPos {
+				f.setPos = as.Pos()
+			}
+		}
+		return true
+	})
 	return f
 }
 
@@ -140,11 +185,19 @@ func genEventStreamStop(repo string) (string, error) {
 		}
 		return true
 	}
+	allGuarded := func(f stopFacts, ps []token.Pos) bool {
+		for _, x := range ps {
+			if !f.guarded(x) {
+				return false
+			}
+		}
+		return true
+	}
 	handleLock := hf.lock && after(sends, hf.lockPos)
-	handleTest := hf.test && hf.lock && hf.testPos > hf.lockPos && after(sends, hf.testPos)
+	handleTest := hf.lock && allGuarded(hf, sends)
 	stopLock := sf.lock && after(closes, sf.lockPos)
-	stopTest := sf.test && sf.lock && sf.testPos > sf.lockPos && after(closes, sf.testPos)
-	stopSets := sf.setPos != token.NoPos && sf.lock && sf.setPos > sf.lockPos && after(closes, sf.setPos)
+	stopTest := sf.lock && allGuarded(sf, closes)
+	stopSets := sf.lock && sf.setPos != token.NoPos && sf.setPos > sf.lockPos && after(closes, sf.setPos) && sf.guarded(sf.setPos)
 	var b strings.Builder
 	b.WriteString("-- GENERATED by /verif/extract from cmd/serf/command/agent/ipc_event_stream.go — do not edit.\n")
 	b.WriteString("import SerfModel.Model.IpcStreams\nnamespace SerfModel.Gen.EventStreamStop\nopen SerfModel.IpcStreams\n\n")
